@@ -7,6 +7,7 @@ reordering factors does not change a verdict."""
 from __future__ import annotations
 
 import ast
+import re
 
 from . import facts, fitrules
 from .astutil import (call_name, calls_in, const_str, dotted, kwarg, norm,
@@ -240,6 +241,30 @@ def clause_nan_unless_written(ctx):
                   f"success={want} in the {'fitting' if want else 'non-fitting'} branch",
                   f"the {'fitting' if want else 'non-fitting'} branch of _fit "
                   f"stores success={found!r}")
+    # nobody but the fitting branch of _fit announces success
+    inside = {id(n) for st in F.success_body for n in ast.walk(st)}
+    for q, f in F.mod.funcs.items():
+        if not q.startswith("IndentationFitter."):
+            continue
+        for n in walk_no_nested(f, False):
+            hit = None
+            if isinstance(n, ast.Assign) and isinstance(
+                    n.targets[0], ast.Subscript) and const_str(
+                    n.targets[0].slice) == "success" and isinstance(
+                    n.value, ast.Constant) and n.value.value is True:
+                hit = n
+            if isinstance(n, ast.Dict):
+                for k, v in zip(n.keys, n.values):
+                    if k is not None and const_str(k) == "success" and \
+                            isinstance(v, ast.Constant) and v.value is True:
+                        hit = n
+            if hit is not None and id(hit) not in inside:
+                ctx.fail(hit, f"success=True stored in {q}",
+                         f"fit.py:{q} stores success=True outside the "
+                         "fitting branch of _fit: success is announced "
+                         "without the fit column, residuals and parameters "
+                         "of that pass having been written (e.g. after a "
+                         "pass that left NaN columns)")
 
 
 def clause_writeback_consistent(ctx):
@@ -393,6 +418,33 @@ def clause_gcf_pairing(ctx):
             ctx.check(ok, d[key], f"'{key}' = {F.r(d[key])}",
                       f"reported '{key}' is not the extreme fitted abscissa "
                       "in measured (uncorrected) units")
+    # lengths are compared in one unit system: both sides corrected or
+    # both measured
+    def k_degree(e):
+        r_ = F.res.resolve(e)
+        txt = norm(r_)
+        if "x_axis" not in txt and "contact_point" not in txt:
+            return None
+        try:
+            num, den = factors(r_)
+        except Exception:
+            return None
+        return sum(1 for x in num if x == K) - sum(1 for x in den if x == K)
+    for n in walk_no_nested(fn, False):
+        if isinstance(n, ast.Compare) and len(n.ops) == 1 and isinstance(
+                n.ops[0], (ast.Lt, ast.LtE, ast.Gt, ast.GtE, ast.Eq,
+                           ast.NotEq)):
+            da, db = k_degree(n.left), k_degree(n.comparators[0])
+            if da is None or db is None:
+                continue
+            ctx.check(da == db, n, f"{norm(n)[:40]}: both sides in the same "
+                      "units",
+                      f"_fit compares `{norm(n.left)[:40]}` (correction "
+                      f"factor applied {da}x) with "
+                      f"`{norm(n.comparators[0])[:40]}` ({db}x): a corrected "
+                      "length is compared with a measured one, so the "
+                      "outcome depends on gcf_k and the fit is no longer "
+                      "the k=1 fit on rescaled lengths")
     # no other use of the correction factor in the fitter
     allowed = {"IndentationFitter._fit"}
     for q, f in F.mod.funcs.items():
@@ -1021,6 +1073,42 @@ def clause_plateau_scan(ctx):
                       "the reported optimal indentation is not an element "
                       "or average of the scanned depths (it can lie outside "
                       "the scan)")
+    # an average over [first:last] of the selected run is empty for a run
+    # of one sample (NaN): needs the one-sample case handled or an
+    # inclusive upper end
+    for c in calls_in(om):
+        if call_name(c) not in ("np.average", "np.mean", "np.median",
+                                "np.nanmean") or not c.args:
+            continue
+        a0 = c.args[0]
+        if not (isinstance(a0, ast.Subscript) and isinstance(
+                a0.slice, ast.Slice) and a0.slice.lower is not None
+                and a0.slice.upper is not None):
+            continue
+        def one_(e):
+            # the bound itself, or the one definition of a local bound
+            if isinstance(e, ast.Name):
+                ds = [d for d in R2.defs.get(e.id, []) if d is not None]
+                if len(ds) == 1:
+                    return norm(ds[0])
+            return norm(e)
+        lo_, hi_ = one_(a0.slice.lower), one_(a0.slice.upper)
+        m1 = re.fullmatch(r"(\w+)\[0\]", lo_)
+        m2 = re.fullmatch(r"(\w+)\[-1\]", hi_)
+        if not (m1 and m2 and m1.group(1) == m2.group(1)):
+            continue
+        arr = m1.group(1)
+        guarded = any(
+            (f"len({arr})" in a.text or f"{arr}.size" in a.text
+             or f"len({arr})" in R2.text(a.node))
+            for a in conditions_at(c))
+        ctx.check(guarded, c, f"average over the selected run only when it "
+                  "has more than one sample",
+                  f"compute_opt_mindelta averages `{norm(a0)[:50]}` - the "
+                  f"slice from the first to the last index of the selected "
+                  f"run, exclusive - without handling a run of one sample: "
+                  "the slice is empty, the optimal indentation is NaN and "
+                  "the final fit silently uses the whole segment")
     # fit(): final fit uses [dopt, max(range_x)] and stores the scan
     L = FitLoopFacts(ctx.repo)
     br = L.branch(lambda t: t == "self.optimal_fit_edelta")
@@ -1591,3 +1679,30 @@ def clause_upper_bound_agreement(ctx, who="hash"):
                               "by the fitter")
         if not found:
             raise Undecided("don't-care comparison of range_x not found")
+    # the don't-care is only justified if nothing on the plateau-search
+    # path reads the range other than through its maximum
+    sites = [(mod.func("IndentationFitter.compute_emodulus_vs_mindelta"),
+              None), (L.fn, br)]
+    n_reads = 0
+    for fn_, scope in sites:
+        nodes = [n for st in (scope.body if scope is not None else fn_.body)
+                 for n in ast.walk(st)]
+        for n in nodes:
+            if not (isinstance(n, ast.Subscript) and isinstance(
+                    n.ctx, ast.Load) and const_str(n.slice) == "range_x"
+                    and norm(n.value) in ("self.fp", "self.fit_properties")):
+                continue
+            n_reads += 1
+            par = getattr(n, "_parent", None)
+            ok = isinstance(par, ast.Call) and (call_name(par) or "") in (
+                "max", "np.max", "np.amax", "numpy.max") and par.args and \
+                par.args[0] is n
+            ctx.check(ok, n, "the plateau search reads range_x through its "
+                      "maximum only",
+                      f"{fn_._qualname} reads `{norm(par)[:50] if par is not None else norm(n)}` "
+                      "while the plateau search is on: the lower range "
+                      "bound influences the result, but the hash and "
+                      "FitProperties.__setitem__ treat it as a don't-care "
+                      "in that mode - two requests that differ in it share "
+                      "a hash, and a stale cached fit is shown")
+    ctx.floor("reads of range_x on the plateau-search path", n_reads, 2)
